@@ -7,7 +7,7 @@ from harness.demos import demo_tensor as T
 
 from deeprob.spn.models.ratspn import BernoulliRatSpn, GaussianRatSpn
 
-torch.set_num_threads(4)
+torch.set_num_threads(1)
 
 
 def impl_oracle(ctx, model, n, classes, rs, rep):
